@@ -466,7 +466,7 @@ def handler_contract(op, extra_req=(), noreply=False, reply_extra='', want=True)
 NAME_ERR_SPLICE = None
 
 
-VERIFIED_LATER = set(os.environ.get('SRV_EXT', 'setxattr').split(','))
+VERIFIED_LATER = set(x for x in os.environ.get('SRV_EXT', '').split(',') if x)
 
 
 def EXT(name):
@@ -699,7 +699,19 @@ impl<'a, S: BitmapSlice> ZeroCopyReader for ZcReader<'a, S> { }
                     assert(out.sbytes().subrange(0, 64) =~= out.sbytes());
                     assert(init_reply_is(out, a0, capable.bits, want.bits, hd0.unique, ok_reply(hd0.unique, out.sbytes().subrange(0, init_out_len(minor)), Seq::<u8>::empty())));
                 }''')]),
-        Fn(SYNC, SRV, 'setxattr', requires=handler_contract('setxattr'), external_body=EXT('setxattr'), splices=[E0], props=['C01']),
+        Fn(SYNC, SRV, 'setxattr', requires=handler_contract('setxattr'), external_body=EXT('setxattr'), props=['C01'], canary=not EXT('setxattr'),
+           # Iterator::position over the bytes with the predicate "is NUL" = index of the first NUL byte (definition of position): model call, logged
+           body_resub=[(r'buf\s*\.iter\(\)\s*\.position\(\|c\| \*c == b\'\\0\'\)', 'nul_position(&buf)', 'Iterator::position(|c| *c == 0) over a byte vector = index of its first NUL byte')],
+           splices=[E0, name_hint('size_of::<SetxattrIn>()', 8),
+                    ('|p|', 'closure', '|p: usize| -> (q: usize) requires p < usize::MAX ensures q == p + 1'),
+                    ('let (name, value) = buf.split_at(split_pos);', 'before', 'proof { lemma_nul_prefix(buf@); }'),
+                    ('let (name, value) = buf.split_at(split_pos);', 'after', '''proof {
+            assert(name@ =~= buf@.subrange(0, first_nul(buf@) + 1)); assert(value@ =~= buf@.subrange(first_nul(buf@) + 1, buf@.len() as int));
+            assert(buf@ =~= xattr_body(hd0, rem0));
+            assert(has_nul(name@) && cstr_of(name@) =~= cstr_of(buf@));
+            assert(value@.len() == buf@.len() - (first_nul(buf@) + 1));
+            assert(rem0.len() >= 8 && hd0.len as int - 40 - 8 >= 0 && rem0.len() >= 8 + (hd0.len as int - 40 - 8) && has_nul(xattr_body(hd0, rem0)));
+        }''')]),
         Fn(SYNC, SRV, 'ioctl', requires=handler_contract('ioctl'), external_body=EXT('ioctl'), props=['C01'], canary=not EXT('ioctl'),
            splices=[E0, ('^', 'after', 'proof { reveal(errno_reply); }'),
                     ('buf.data = Some(&data[..size]);', 'after',
